@@ -513,6 +513,10 @@ theorem allSpec_succ (g : Grammar) (inp : Input) (hg : GrammarWF g) (n : Nat) (i
       simp only [eval]
       have h1 := ih.eval e pos r { st with dir := st.dir + 1 } (inv_dir hi _)
       exact ⟨inv_dir h1.1 _, fun hw => h1.2.1 (by simpa [WF] using hw), fun hs => by simp [Still] at hs⟩
+    | kwScope v e =>
+      simp only [eval]
+      have h1 := ih.eval e pos r { st with vers := v :: st.vers } (inv_vers hi _)
+      exact ⟨inv_vers h1.1 _, fun hw => h1.2.1 (by simpa [WF] using hw), fun hs => by simp [Still] at hs⟩
     | ifDir a b =>
       simp only [eval]
       split
